@@ -41,3 +41,117 @@ spec fn lz_inv(lz: &LZOxide) -> bool {
             old(self).num_flags_left == 1 ==> final(self).num_flags_left == 8 && final(self).flag_position == old(self).code_position && final(self).code_position == old(self).code_position + 1,
             final(self).codes@ == old(self).codes@, final(self).total_bytes == old(self).total_bytes,
 //@end
+
+// ---- the recorders: one token into the buffer + one/two histogram increments (what compress_lz_codes later reads back) ----
+//@extract const MAX_HUFF_SYMBOLS from miniz_oxide/src/deflate/core.rs
+//@end
+//@extract const MAX_HUFF_TABLES from miniz_oxide/src/deflate/core.rs
+//@end
+//@extract const MIN_MATCH_LEN from miniz_oxide/src/deflate/core.rs
+//@end
+//@extract const LZ_DICT_SIZE from miniz_oxide/src/deflate/core.rs
+//@end
+//@extract const LEN_SYM_OFFSET from miniz_oxide/src/deflate/core.rs
+//@end
+//@extract struct HuffmanOxide from miniz_oxide/src/deflate/core.rs
+//@end
+
+//@extract fn get_flag in impl LZOxide from miniz_oxide/src/deflate/core.rs
+//@  rename r
+//@  contract
+        requires old(self).flag_position < 65536,
+        ensures
+            *r == old(self).codes[old(self).flag_position as int],
+            final(self).codes@ == old(self).codes@.update(old(self).flag_position as int, *final(r)),
+            final(self).code_position == old(self).code_position, final(self).flag_position == old(self).flag_position,
+            final(self).total_bytes == old(self).total_bytes, final(self).num_flags_left == old(self).num_flags_left,
+//@  before "&mut self.codes[usize::from(self.flag_position as u16)]"
+        let ghost fp: usize = self.flag_position;
+        assert(fp < 65536usize ==> (fp as u16) as usize == fp) by (bit_vector);
+//@end
+
+//@extract fn init_flag in impl LZOxide from miniz_oxide/src/deflate/core.rs
+//@  contract
+        requires old(self).flag_position < 65536, old(self).code_position >= 1, 1 <= old(self).num_flags_left <= 8,
+        ensures
+            old(self).num_flags_left == 8 ==> final(self).code_position == old(self).code_position - 1
+                && final(self).codes@ == old(self).codes@.update(old(self).flag_position as int, 0u8),
+            old(self).num_flags_left < 8 ==> final(self).code_position == old(self).code_position
+                && final(self).codes@ == old(self).codes@.update(old(self).flag_position as int,
+                        old(self).codes[old(self).flag_position as int] >> (old(self).num_flags_left as u8)),
+            final(self).flag_position == old(self).flag_position, final(self).total_bytes == old(self).total_bytes,
+            final(self).num_flags_left == old(self).num_flags_left,
+//@end
+
+//@extract fn record_literal from miniz_oxide/src/deflate/core.rs
+//@  contract
+    requires
+        lz_inv(old(lz)), old(lz).total_bytes < u32::MAX, old(h).count[0][lit as int] < u16::MAX,
+    ensures
+        // token bytes: the literal at the old write position, the flag byte shifted with a 0 (= literal) entering at the top
+        final(lz).codes@ == old(lz).codes@.update(old(lz).code_position as int, lit)
+                                .update(old(lz).flag_position as int, old(lz).codes[old(lz).flag_position as int] >> 1u8),
+        final(lz).total_bytes == old(lz).total_bytes + 1,
+        1 <= final(lz).num_flags_left <= 8,
+        old(lz).num_flags_left > 1 ==> final(lz).num_flags_left == old(lz).num_flags_left - 1
+            && final(lz).code_position == old(lz).code_position + 1 && final(lz).flag_position == old(lz).flag_position,
+        old(lz).num_flags_left == 1 ==> final(lz).num_flags_left == 8
+            && final(lz).flag_position == old(lz).code_position + 1 && final(lz).code_position == old(lz).code_position + 2,
+        final(lz).flag_position < final(lz).code_position,
+        // histogram: exactly the literal's own counter moves, by one; nothing else in the Huffman state changes
+        final(h).count[0]@ == old(h).count[0]@.update(lit as int, (old(h).count[0][lit as int] + 1) as u16),
+        final(h).count[1]@ == old(h).count[1]@, final(h).count[2]@ == old(h).count[2]@,
+        final(h).codes == old(h).codes, final(h).code_sizes == old(h).code_sizes,
+//@end
+
+//@extract const LEN_SYM from miniz_oxide/src/deflate/core.rs
+//@end
+//@extract const SMALL_DIST_SYM from miniz_oxide/src/deflate/core.rs
+//@end
+//@extract const LARGE_DIST_SYM from miniz_oxide/src/deflate/core.rs
+//@end
+
+// the histogram slots a match touches, written with the same table look-ups compress_lz_codes uses when it emits the
+// token (SMALL_DIST_SYM[d] for d < 512, LARGE_DIST_SYM[d >> 8] above; LEN_SYM[len-3] & 31 + 256): a recorder that
+// counted any other slot would leave the emitted symbol without a code. (That these tables are the RFC 1951 code
+// assignment is K-lenDist's obligation, not this one's.)
+spec fn dist_slot(md: u32) -> int {
+    if md < 512 { SMALL_DIST_SYM[md as int] as int } else { LARGE_DIST_SYM[(md as int) / 256] as int }
+}
+spec fn len_slot(ml: u8) -> int { ((LEN_SYM[ml as int] & 31u8) as int) + 256 }
+
+//@extract fn record_match from miniz_oxide/src/deflate/core.rs
+//@  contract
+    requires
+        lz_inv(old(lz)), 3 <= match_len <= 258, 1 <= match_dist <= 32768,
+        old(lz).total_bytes as int + match_len as int <= u32::MAX,
+        old(h).count[1][dist_slot((match_dist - 1) as u32)] < u16::MAX,
+        old(h).count[0][len_slot((match_len - 3) as u8)] < u16::MAX,
+    ensures
+        // token bytes: len-3, low and high byte of dist-1 at the old write position; flag byte shifted with a 1 (= match) on top
+        final(lz).codes@ == old(lz).codes@.update(old(lz).code_position as int, (match_len - 3) as u8)
+                                .update(old(lz).code_position + 1, ((match_dist - 1) as u32 % 256) as u8)
+                                .update(old(lz).code_position + 2, ((match_dist - 1) as u32 / 256) as u8)
+                                .update(old(lz).flag_position as int, (old(lz).codes[old(lz).flag_position as int] >> 1u8) | 0x80u8),
+        final(lz).total_bytes == old(lz).total_bytes + match_len,
+        1 <= final(lz).num_flags_left <= 8,
+        old(lz).num_flags_left > 1 ==> final(lz).num_flags_left == old(lz).num_flags_left - 1
+            && final(lz).code_position == old(lz).code_position + 3 && final(lz).flag_position == old(lz).flag_position,
+        old(lz).num_flags_left == 1 ==> final(lz).num_flags_left == 8
+            && final(lz).flag_position == old(lz).code_position + 3 && final(lz).code_position == old(lz).code_position + 4,
+        final(lz).flag_position < final(lz).code_position,
+        // histogram: the distance slot and the length slot move by one each; nothing else in the Huffman state changes
+        final(h).count[1]@ == old(h).count[1]@.update(dist_slot((match_dist - 1) as u32),
+                                    (old(h).count[1][dist_slot((match_dist - 1) as u32)] + 1) as u16),
+        final(h).count[0]@ == old(h).count[0]@.update(len_slot((match_len - 3) as u8),
+                                    (old(h).count[0][len_slot((match_len - 3) as u8)] + 1) as u16),
+        final(h).count[2]@ == old(h).count[2]@,
+        final(h).codes == old(h).codes, final(h).code_sizes == old(h).code_sizes,
+//@  before "lz.write_code(match_dist as u8);"
+    let ghost md: u32 = match_dist;
+    assert(md < 32768u32 ==> (md as u8) as u32 == md % 256u32 && ((md >> 8u32) as u8) as u32 == md / 256u32
+        && ((md >> 8u32) & 127u32) == md / 256u32 && ((md >> 8u32) & 127u32) < 128u32) by (bit_vector);
+//@  before "h.count[0][(LEN_SYM[match_len as usize] as usize & 31) + LEN_SYM_OFFSET] += 1;"
+    let ghost ls: u8 = LEN_SYM[match_len as int];
+    assert((ls as usize & 31usize) == (ls & 31u8) as usize && (ls as usize & 31usize) < 32usize) by (bit_vector);
+//@end
